@@ -41,7 +41,7 @@ func calleeRole(p *core.Prog, cc *ssa.CallCommon) string {
 		if isInprocFrameWriter(fn) {
 			return "frame-writer"
 		}
-		if len(fn.Params) >= 1 && core.TypeStr(fn.Params[0].Type()) == "io.Writer" {
+		if ioParamIdx(fn, "io.Writer") >= 0 {
 			return "http-frame-writer"
 		}
 		if len(fn.Params) == 1 && core.TypeStr(fn.Params[0].Type()) == "io.ReadCloser" {
@@ -1045,10 +1045,20 @@ func c02NoFrameDropped(c *core.Ctx) {
 		if pkgSuffixOf(nt) != "inprocgrpc" {
 			continue
 		}
-		for i := 0; i < nt.NumMethods(); i++ {
-			fn := p.SSA.FuncValue(nt.Method(i))
-			if fn == nil || fn.Blocks == nil || len(msgReceives(fn, nt.Obj().Name())) == 0 {
+		for _, fn := range typeFuncs(p, nt) {
+			if fn == nil || fn.Blocks == nil {
 				continue
+			}
+			if len(msgReceives(fn, nt.Obj().Name())) == 0 {
+				hasRecvPar := false
+				for _, pp := range fn.Params {
+					if core.NamedOf(pp.Type()) == "frame" && isReceivedFrame(pp, 0) {
+						hasRecvPar = true
+					}
+				}
+				if !hasRecvPar {
+					continue
+				}
 			}
 			for _, ef := range core.EdgeFactsOf(fn) {
 				f := ef.Fact
@@ -1063,7 +1073,11 @@ func c02NoFrameDropped(c *core.Ctx) {
 				// only frames received in this function (not the peeked one, which was saved earlier)
 				if !core.OriginIs(kc.Call.Args[0], func(o ssa.Value) bool {
 					cr := core.ResultPart(o)
-					return cr != nil && core.InfoOf(&cr.Call).Static != nil && receivesFromParam(core.InfoOf(&cr.Call).Static)
+					if cr != nil && core.InfoOf(&cr.Call).Static != nil && receivesFromParam(core.InfoOf(&cr.Call).Static) {
+						return true
+					}
+					par, isPar := o.(*ssa.Parameter)
+					return isPar && isReceivedFrame(par, 0)
 				}) {
 					continue
 				}
@@ -1420,8 +1434,7 @@ func c02ErrFrameIsStatus(c *core.Ctx) {
 		if pkgSuffixOf(nt) != "inprocgrpc" {
 			continue
 		}
-		for i := 0; i < nt.NumMethods(); i++ {
-			fn := p.SSA.FuncValue(nt.Method(i))
+		for _, fn := range typeFuncs(p, nt) {
 			if fn == nil || fn.Blocks == nil {
 				continue
 			}
